@@ -9,7 +9,13 @@ MANIFEST = {
             'completed AND routed to the join), join_error_iff_count / _all (ERROR exactly when that number can no '
             'longer be reached), join_waiting_otherwise, join_no_inbound_runs, possibleRoute_terminates_partial '
             '(acyclic), possibleRoute_full_fails + cyc_join_state_undefined (an accepted definition on which the route '
-            'search never returns: known finding B). Ties: stream join = the REAL _get_join_logical_state on generated '
+            'search never returns: known finding B). Engine level (model Mistral.Engine, every reachable state, every '
+            'next event): join_created_once_reachable (one row per join), join_inv_reachable (a join row is never IDLE '
+            'and never the subject of a re-run request) and join_starts_only_when_ready: an execution of a join '
+            'that is not RUNNING becomes RUNNING only through its own refresh job and only when the join verdict on the '
+            'rows of that moment is RUNNING (hence, by join_running_iff_*, only after the required number of inbound '
+            'tasks completed and routed to it); no trigger, start_task RPC, resume, result or completion check starts '
+            'a join. Ties: stream join = the REAL _get_join_logical_state on generated '
             'specs with synthetic task rows in sqlite vs the model (state, cardinality, triggered_by, messages); '
             'stream core (engine model incl. Task.defer / _refresh_task_state vs real engine after every event); '
             'engine monitors: one row per join, a join leaves WAITING only when the required number of inbound rows '
